@@ -719,6 +719,9 @@ class Interp:
             if isinstance(op, ast.Mult):
                 return VInt(l.p * r.p)
             if isinstance(op, ast.FloorDiv):
+                ca, cb = self.facts.norm(l.p).const_value(), self.facts.norm(r.p).const_value()
+                if ca is not None and cb is not None and cb != 0:
+                    return VInt(P.const(int(ca) // int(cb)))
                 q = self.facts.norm(l.p).div(self.facts.norm(r.p))
                 if q is None:
                     raise Unmodelled(f"inexact symbolic division {l.p!r} // {r.p!r}")
@@ -750,6 +753,10 @@ class Interp:
             v = VList(l.items + r.items)
             self.class_ctx[-1].local_lists.add(id(v))
             return v
+        if isinstance(op, ast.Add) and isinstance(l, VList) and isinstance(r, VSeq):
+            n = self.facts.norm(r.length).const_value()
+            if n is not None:
+                return VList(list(l.items) + [r.get(self.facts.norm(r.lo + i)) for i in range(max(0, int(n)))])
         if isinstance(op, ast.Add) and isinstance(l, (VList, VSymList)) and isinstance(r, (VList, VSymList)):
             return _concat_lists(l, r)
         if isinstance(op, ast.Add) and isinstance(l, VTuple) and isinstance(r, VTuple):
